@@ -21,6 +21,8 @@ TYPES = {
 }
 DEMANGLED_TO_TID = {v[1]: k for k, v in TYPES.items()}
 DEMANGLED_TO_TID.update({"char": "i8", "long long": "i64", "unsigned long long": "u64", "bool": "u8"})
+# dependent names clang leaves unresolved in demangled signatures (frexp / ldexp take batch<as_integer_t<T>, A>)
+DEMANGLED_TO_TID.update({"xsimd::as_integer<float>::type": "i32", "xsimd::as_integer<double>::type": "i64"})
 INT_TYPES = ["i8", "u8", "i16", "u16", "i32", "u32", "i64", "u64"]
 FLOAT_TYPES = ["f32", "f64"]
 ALL_TYPES = INT_TYPES + FLOAT_TYPES
